@@ -51,6 +51,10 @@ def subsystem_apply(
         raise ValueError("input state must be a ket or oper")
     if not (channel.issuper or channel.isoper):
         raise ValueError("input channel must be a super or oper")
+    if state.isket:
+        # The channel acts on the density matrix of the pure state; the dims
+        # of a ket, `[[...], [1]]`, do not list the subsystems twice.
+        state = state.proj()
     # Since there's only one channel, all affected subsystems must have
     # the same dimensions:
     aff_subs_dim_ar = np.transpose(np.array(state.dims))[np.array(mask)]
